@@ -368,15 +368,20 @@ METHODS = ("V2", "AESV2", "AESV3")
 class Handler:
     """one variant of the standard security handler, writer's side
 
-    R: 2..6   method: "V2" | "AESV2" | "AESV3"   n: key length in bytes (5..16; 32 for AESV3)
+    R: 2..6   method: "V2" | "AESV2" | "AESV3" | "Identity" (V >= 4 only)   n: key length in bytes (5..16; 32 for AESV3)
     cf_length: how the crypt filter states its length: "bytes" | None (omitted; /Length of the dictionary is used)
+    method is the crypt filter of streams (/StmF); str_method the one of strings (/StrF; default: the same filter).
+    ISO 32000-1 Table 20: /StmF and /StrF each name an entry of /CF or Identity; both default to Identity (absent=True
+    leaves an Identity entry out of the dictionary).
     """
 
     def __init__(self, R, method, n, upw, opw, P, id0, encrypt_metadata=True, salts=None, file_key=None, u_tail=bytes(16),
-                 V=None, cf_length="bytes", cf_name=b"StdCF", strf=None):
+                 V=None, cf_length="bytes", cf_name=b"StdCF", str_method=None, absent=False, str_cf_name=b"StrCF"):
         self.R, self.method, self.n, self.P, self.id0, self.em = R, method, n, P, bytes(id0), encrypt_metadata
         self.upw, self.opw = bytes(upw), bytes(opw)
-        self.cf_length, self.cf_name, self.strf = cf_length, cf_name, strf
+        self.cf_length, self.cf_name = cf_length, cf_name
+        self.str_method = method if str_method is None else str_method
+        self.absent, self.str_cf_name = absent, str_cf_name
         self.V = V if V is not None else (1 if R == 2 and n == 5 else 2 if R <= 3 else 4 if R == 4 else 5)
         if R <= 4:
             # EncryptMetadata is meaningful only for V >= 4 (Table 21); Algorithm 2 step f reads it only for R >= 4
@@ -398,6 +403,23 @@ class Handler:
     def metadata_exempt(self):
         return self.V >= 4 and not self.em
 
+    def filters(self):
+        """(StmF name or None, StrF name or None, [(filter name, method, /Length in bytes or None)]) for V >= 4"""
+        ln = self.n if self.cf_length == "bytes" else None
+        cf = []
+        ident = None if self.absent else b"Identity"
+        stmf = strf = ident
+        if self.method != "Identity":
+            stmf = self.cf_name
+            cf.append((self.cf_name, self.method, ln))
+        if self.str_method != "Identity":
+            if self.str_method == self.method:
+                strf = self.cf_name
+            else:
+                strf = self.str_cf_name
+                cf.append((self.str_cf_name, self.str_method, ln))
+        return stmf, strf, cf
+
     def dict_plain(self):
         """python-level view of the /Encrypt dictionary (bytes values are strings)"""
         d = {"O": self.O, "U": self.U, "P": self.P, "R": self.R, "V": self.V, "Length": self.n * 8, "EncryptMetadata": self.em}
@@ -409,12 +431,17 @@ class Handler:
         from .pdfwriter import Name
         d = {"Filter": Name("Standard"), "V": self.V, "R": self.R, "Length": self.n * 8, "P": self.P, "O": self.O, "U": self.U}
         if self.V >= 4:
-            cf = {"Type": Name("CryptFilter"), "CFM": Name(self.method), "AuthEvent": Name("DocOpen")}
-            if self.cf_length == "bytes":
-                cf["Length"] = self.n
-            d["CF"] = {self.cf_name.decode(): cf}
-            d["StmF"] = Name(self.cf_name)
-            d["StrF"] = Name(self.strf if self.strf is not None else self.cf_name)
+            stmf, strf, cfs = self.filters()
+            d["CF"] = {}
+            for (name, method, ln) in cfs:
+                cf = {"Type": Name("CryptFilter"), "CFM": Name(method), "AuthEvent": Name("DocOpen")}
+                if ln is not None:
+                    cf["Length"] = ln
+                d["CF"][name.decode()] = cf
+            if stmf is not None:
+                d["StmF"] = Name(stmf)
+            if strf is not None:
+                d["StrF"] = Name(strf)
             d["EncryptMetadata"] = self.em
         elif not self.em:
             d["EncryptMetadata"] = False       # present but not meaningful for V < 4
@@ -422,12 +449,15 @@ class Handler:
             d.update(OE=self.OE, UE=self.UE, Perms=self.Perms)
         return d
 
-    def encrypt(self, num, gen, data, iv=bytes(16)):
-        """Algorithm 1 (RC4 / AES-128) and 1.A (AES-256)"""
+    def encrypt(self, num, gen, data, iv=bytes(16), string=False):
+        """Algorithm 1 (RC4 / AES-128) and 1.A (AES-256) under the crypt filter of streams, or of strings"""
         data = bytes(data)
-        if self.method == "V2":
+        method = self.str_method if string else self.method
+        if method == "Identity":
+            return data
+        if method == "V2":
             return rc4(object_key(self.file_key, num, gen, False), data)
-        if self.method == "AESV2":
+        if method == "AESV2":
             return bytes(iv) + aes_cbc_enc(object_key(self.file_key, num, gen, True), iv, pkcs7_pad(data))
         return bytes(iv) + aes_cbc_enc(self.file_key, iv, pkcs7_pad(data))
 
@@ -456,7 +486,7 @@ def encrypt_value(h, num, gen, v, ivs, strings=True, streams=True):
     strings / streams = False model a crypt filter /Identity for /StrF resp. /StmF."""
     from .pdfwriter import Stream
     if isinstance(v, (bytes, bytearray)):
-        return h.encrypt(num, gen, v, next(ivs)) if strings else bytes(v)
+        return h.encrypt(num, gen, v, next(ivs), string=True) if strings else bytes(v)
     if isinstance(v, (list, tuple)):
         return [encrypt_value(h, num, gen, x, ivs, strings, streams) for x in v]
     if isinstance(v, dict):
